@@ -5,6 +5,8 @@ import (
 	"encoding/json"
 	"fmt"
 	"os"
+	"os/exec"
+	"runtime"
 	"path/filepath"
 	"runtime/debug"
 	"strconv"
@@ -131,4 +133,19 @@ func jsonUnmarshal(b []byte, v any) error { return json.Unmarshal(b, v) }
 // fataler is satisfied by *testing.T, *testing.B and *rapid.T.
 type fataler interface {
 	Fatalf(format string, args ...any)
+}
+
+var tasksetPath, _ = exec.LookPath("taskset")
+
+// pinnedCommand runs a helper process with all its threads (and its
+// children) on one CPU. In this kind of VM cross-CPU wake-ups between a
+// tracer and its tracee, or between the threads of a short-lived process,
+// cost two orders of magnitude more than the work itself.
+func pinnedCommand(name string, args ...string) *exec.Cmd {
+	if tasksetPath == "" {
+		return exec.Command(name, args...)
+	}
+	idx, _ := shard()
+	cpu := (idx*7 + os.Getpid()) % runtime.NumCPU()
+	return exec.Command(tasksetPath, append([]string{"-c", strconv.Itoa(cpu), name}, args...)...)
 }
